@@ -101,7 +101,13 @@ func toUnstructured(obj any) (*unstructured.Unstructured, error) {
 		}
 		return mft.Unstructured(), nil
 	case map[string]any:
-		return &unstructured.Unstructured{Object: v}, nil
+		// An object decoded from a YAML document holds Go ints, which Unstructured
+		// cannot deep copy ("cannot deep copy int"). Normalize it to JSON types.
+		objectContent, err := runtime.DefaultUnstructuredConverter.ToUnstructured(&v)
+		if err != nil {
+			return nil, fmt.Errorf("convert to unstructured: %v", err)
+		}
+		return &unstructured.Unstructured{Object: objectContent}, nil
 	default:
 		objectContent, err := runtime.DefaultUnstructuredConverter.ToUnstructured(obj)
 		if err != nil {
